@@ -1,12 +1,14 @@
 """Guard-lifetime rules: G2, G3 / LK1, LK3, LK4, IT1, IT2."""
 import re
-from .core import Obl, calls_in, callee_name, pretty, strip_payload, unwrap_payload, proj_field, term_mentions, term_calls, FLAVOURS, SYNC, PLAIN
+from .core import Obl, calls_in, callee_name, pretty, strip_payload, unwrap_payload, deep_unwrap, proj_field, term_mentions, term_calls, FLAVOURS, SYNC, PLAIN
 from .guards import ACQ, PANICKY, NODE_ITERS, GUARD_SH, GUARD_EX
 
 
 def _bodies(ctx, flavours):
     F = ctx.F
-    return [b for q, b in sorted(F.bodies.items()) if F.flavour(b) in flavours]
+    # a private helper that was spliced into its callers (inline.py) is judged there, under the caller's name
+    ab = getattr(F, 'absorbed', ())
+    return [b for q, b in sorted(F.bodies.items()) if F.flavour(b) in flavours and re.sub(r'(::\{closure#\d+\})+$', '', q) not in ab]
 
 
 def _is_node_next(F, t):
@@ -247,19 +249,9 @@ def it2(ctx, flavours):
                 if not term_mentions(recv, lambda z: isinstance(z, tuple) and z and z[0] == 'call' and z[1] in ACQ):
                     why.append('adjacency read is not through the guard')
                 entry = proj_field(('v', ('call', gt['res'], tuple(pv.of_operand(a) for a in gt['args']), gbi), 'Some#1'), '0')
-                # Some edge of the getter's discriminant
-                some_edge = None
-                x = gt['target']
-                seen = set()
-                while x not in seen and x >= 0:
-                    seen.add(x)
-                    tt = b['blocks'][x]['term']
-                    if tt['k'] == 'switch':
-                        ones = [tg for v, tg in tt['targets'] if v == 1]
-                        if ones:
-                            some_edge = (x, ones[0])
-                        break
-                    x = tt.get('target', -1) if tt['k'] in ('goto', 'drop') else -1
+                # success edge of the getter's outcome (match / if let / `?`)
+                from .core import outcome_edges
+                some_edge, _none = outcome_edges(F, b, gbi)
                 # position stores
                 stores = []
                 for bi, bb in enumerate(b['blocks']):
@@ -324,15 +316,9 @@ def it2(ctx, flavours):
 
 
 def _proj_eq(term, entry, idx):
-    """term == entry.idx modulo payload wrappers / tuple-of-refs indirection (entry is (&weak,&val))"""
-    t = strip_payload(term)
-    want = ('f', entry, idx)
-    if t == want:
-        return True
-    # pattern-bound: Some((n, e)) => n is entry.0
-    if isinstance(t, tuple) and t[0] == 'f' and t[2] == idx and strip_payload(t[1]) == strip_payload(entry):
-        return True
-    return False
+    """term == entry.idx modulo payload wrappers (match binding, `?`, unwrap)"""
+    from .core import deep_unwrap
+    return deep_unwrap(term) == deep_unwrap(('f', entry, idx))
 
 
 def it3(ctx, flavours):
